@@ -1,6 +1,7 @@
 /- C17: ties to the source text.  Built and audited together with Props/C17.lean by check.py, but in a module of its own, so that a
    changed textual fact breaks the obligations of the properties that own it and not those of every module that imports their lemmas. -/
 import CosetProofs.Ties.IanaMacro
+import CosetProofs.Ties.Budget.Iana
 namespace Coset.Props.C17
 
 /-! ### ties to the source text (regenerated on every run, compared in the kernel with the transcribed tree) -/
@@ -8,5 +9,10 @@ namespace Coset.Props.C17
 theorem tie_iana_macro : Coset.Gen.ianaMacroHash = Coset.Pinned.ianaMacroHash := Coset.Ties.iana_macro
 
 #print axioms tie_iana_macro
+
+/-- decision budget of `src/iana/mod.rs`: no branch, comparison or integer literal beyond the transcribed tree's (a needle no stream reaches still adds one). -/
+theorem tie_budget_iana : Coset.Ties.budgetCovered "iana" Coset.Gen.decisionBudget Coset.Pinned.decisionBudget = true := Coset.Ties.budget_iana
+
+#print axioms tie_budget_iana
 
 end Coset.Props.C17
